@@ -278,10 +278,12 @@ theorem header_roundtrip (f : FileE) (h1 : 1 ≤ f.version) (h13 : f.version ≤
   header_file f h1 h13 rest
 
 /-- EOF and checksum: the 8 bytes after the EOF opcode — the little-endian
-    CRC-64/Jones of everything before them, or eight zero bytes — pass `Loader.Footer` -/
+    CRC-64/Jones of everything before them, or eight zero bytes — pass `Loader.Footer`,
+    and the input ends there (`Loader.End`) -/
 theorem footer_roundtrip (f : FileE) (hnb : f.footer ≠ .bad) :
-    footer (rdbFile f) ((rdbFile f).drop f.body.length) = true :=
-  footer_file f hnb
+    footer (rdbFile f) ((rdbFile f).drop f.body.length) = true ∧
+    inputEnds ((rdbFile f).drop f.body.length) = true :=
+  ⟨footer_file f hnb, inputEnds_file f⟩
 
 /-! ## The two replay paths -/
 
